@@ -36,8 +36,9 @@ PROPS = {
         "rule": "C01 programs: task forests of 5-200 nodes; per node a submission API (start_detached(schedule|then), execute, "
                 "detached pika::thread, register_work, register_thread, transfer_just), priority, stack class, worker hint, yields, "
                 "an optional wait for an earlier task (by suspension on an event or by a yield_k spin-wait, which yields with the boost hint), children spawned from inside; roots submitted by main and by 0-2 racing OS "
-                "threads; all 8 policies, 1-16 workers, adverse queue knobs.",
-        "required_probes": ["waited_for_other_task", "spin_waited_for_other_task", "tasks"],
+                "threads; all 8 policies, 1-16 workers, adverse queue knobs."
+                " Some tasks return with an undelivered interruption request (their thread objects are recycled).",
+        "required_probes": ["waited_for_other_task", "spin_waited_for_other_task", "tasks", "returned_with_interruption_requested"],
         "kf_subs": {"kf_yield_starvation": 8},
     },
     "C17": {
@@ -45,8 +46,9 @@ PROPS = {
         "rule": "C17 programs: 1-4 plain threads x pop_left/pop_right on contiguous_index_queue, push/pop at both ends of the "
                 "lock-free deque (tiny node pools so that nodes are recycled), push/pop/steal through the four scheduler queue "
                 "back-ends; conservation + drain on every run, sequential order in single-thread runs, linearizability check "
-                "(<= 24 operations) of index queue and deque histories against a sequential model.",
-        "required_probes": ["index.concurrent", "index.sequential", "deque.concurrent", "deque.sequential", "backend0.concurrent", "backend2.sequential"],
+                "(<= 24 operations) of index queue and deque histories against a sequential model."
+                " Back-ends also: bursts, a backlog of 900-2200 elements after a partial drain, 17-26 producer threads, two generations of threads on one queue.",
+        "required_probes": ["index.concurrent", "index.sequential", "deque.concurrent", "deque.sequential", "backend0.concurrent", "backend2.sequential", "backend.backlog_over_initial_capacity", "backend.more_than_16_producer_threads", "backend.two_thread_generations"],
         "stubbed": ["no pika runtime is started for this property: the containers are driven directly by simulated plain threads"],
     },
     "C02": {
@@ -57,8 +59,9 @@ PROPS = {
                 "with restart reason 'abort' (the waiter survives the exception) and then waits again; latch and semaphore pairs "
                 "have 0-3 co-waiters that one count_down / release(n) must wake together; the waiter publishes 'registered' "
                 "(under the facility's lock where there is one), the waker (task or OS thread) wakes only afterwards; focus "
-                "strategy on do_yield/do_resume/set_thread_state/set_active_state/scheduling_loop.",
-        "required_probes": ["mech0", "mech1", "mech5", "mech6", "timed_cv_wait_woken", "timed_sem_wait_woken", "co_waiters", "waiter_survived_abort"],
+                "strategy on do_yield/do_resume/set_thread_state/set_active_state/scheduling_loop."
+                " A waiter blocked for good (raw suspend / semaphore / condition variable nobody signals) is woken by interrupt_thread.",
+        "required_probes": ["mech0", "mech1", "mech5", "mech6", "timed_cv_wait_woken", "timed_sem_wait_woken", "co_waiters", "waiter_survived_abort", "waiter_interrupted"],
     },
     "C10": {
         "quick_runs": 20000, "thorough_runs": 300000, "seed": 10000001,
@@ -72,8 +75,9 @@ PROPS = {
         "quick_runs": 20000, "thorough_runs": 300000, "seed": 11000001,
         "rule": "C11 programs: bulk(sender, n, f) on the pool scheduler for n in {0,1,2,w-1,w,w+1,4w+-1,8w+-1,16w,2^k+-1, random <= 5000}, "
                 "shape types int/unsigned/long/size_t/long long (short shapes do not compile on the scheduler path), predecessor via transfer_just / schedule+let_value / just+continues_on "
-                "(values: an integer and a move-only token), 0-3 throwing indices, hints and priorities, a yielding index.",
-        "required_probes": ["bulk.n0", "bulk.value", "bulk.error", "bulk.type4", "bulk.pred2"],
+                "(values: an integer and a move-only token), 0-3 throwing indices, hints and priorities, a yielding index."
+                " One run in three: bulk on a second pool created through the resource partitioner (1-4 workers, any policy).",
+        "required_probes": ["bulk.n0", "bulk.value", "bulk.error", "bulk.type4", "bulk.pred2", "bulk.on_second_pool"],
     },
     "C19": {
         "quick_runs": 16000, "thorough_runs": 250000, "seed": 19000001,
@@ -92,7 +96,8 @@ PROPS = {
                 "with drawn sizes (guard pages on/off); each recurses to a drawn fraction of its usable stack filling every frame with a "
                 "pattern, keeps integer and floating point locals, task-local data and (one task in three) a non-default floating-point control state (rounding mode in MXCSR and x87 control word, or only the x87 control word: rounding and precision control, with and without pending SSE exception flags) live across 0-5 yields at the deepest point, "
                 "and may leave 'dirt' (interruption disabled, an undelivered interruption request, an exit callback) for the next user of its thread object; "
-                "one task in four creates a child with thread_stacksize::current, which must run on (and be able to use) a stack of its creator's class.",
+                "one task in four creates a child with thread_stacksize::current, which must run on (and be able to use) a stack of its creator's class."
+                " Sizes configured in decimal, hexadecimal or octal notation.",
         "required_probes": ["resumed_on_another_worker", "left_interruption_disabled", "left_interruption_requested", "canary_tasks", "fp_mode_kept_across_yield", "x87_only_mode_kept_across_yield", "child_with_current_stacksize"],
     },
     "C20": {
@@ -101,8 +106,9 @@ PROPS = {
                 "and without the dedicated polling pool, polling size 1 (MPI_Testany) or 2-64 (MPI_Testsome in chunks of 32), 1-24 outstanding self-addressed MPI_Irecv/MPI_Isend pairs (1 B - 4 KiB, "
                 "per-message pattern) and MPI_Ibcast through transform_mpi in 1-3 batches, each inside its own enable_polling scope "
                 "and followed by pika::wait(); the simulated transport completes requests after drawn delays, out of order and in bursts; in one run "
-                "in three it holds every completion back until a whole batch of 12-64 pairs is posted (up to 128 requests outstanding at once).",
-        "required_probes": ["batch", "requests", "mpi_pool", "no_mpi_pool", "mode0", "mode8", "mode16", "mode30", "all_requests_outstanding_at_once"],
+                "in three it holds every completion back until a whole batch of 12-64 pairs is posted (up to 128 requests outstanding at once)."
+                " Later polling sessions may use another completion mode; one run in 25 is a flood (one task on one worker starts 1050-1300 sends in a row).",
+        "required_probes": ["batch", "requests", "mpi_pool", "no_mpi_pool", "mode0", "mode8", "mode16", "mode30", "all_requests_outstanding_at_once", "completion_mode_changed_between_sessions", "flood_of_requests_from_one_task"],
         "stubbed": ["the MPI library: libpikasim defines MPI_Init_thread/Isend/Irecv/Ibcast/Test/Testany/Testsome/... as a single-rank "
                     "simulated transport (requests complete after drawn virtual delays, receive buffers are written at completion only); "
                     "the real libmpi is loaded but never initialised"],
@@ -112,15 +118,17 @@ PROPS = {
         "kf_subs": {"kf_shared_priority": 32, "kf_yield_noexcept": 16},
         "rule": "C13 programs: 1-7 threads with bodies {return, yield k, block, spawn+join child, interruptible loop, stop-token "
                 "loop} x controls {join, detach, interrupt+join, ~jthread, request_stop+join, double join, self join, move+join} "
-                "with drawn delays so that termination and join/interrupt race; all policies except shared-priority (known finding).",
-        "required_probes": ["join.target_already_done", "join.target_running", "interrupted", "stop_observed", "double_join", "self_join", "detach"],
+                "with drawn delays so that termination and join/interrupt race; all policies except shared-priority (known finding)."
+                " A jthread handle is moved / move-assigned / swapped right after construction; an interruption has to wake a thread that blocks for good.",
+        "required_probes": ["join.target_already_done", "join.target_running", "interrupted", "stop_observed", "double_join", "self_join", "detach", "jthread.handed_over", "interrupt.woke_blocked_thread"],
     },
     "C14": {
         "quick_runs": 32000, "thorough_runs": 500000, "seed": 14000001,
         "rule": "C14 histories: 2-5 parties (tasks / OS threads) x stop_source copy/move/copy-assign/move-assign (also between sources of one state, also onto itself)/swap/destroy, token checks, "
                 "stop_callback construct (before/after stop) and destroy (other thread, inside own callback, inside another "
-                "callback), racing request_stop over two stop states; one sub-workload uses plain OS threads only.",
-        "required_probes": ["request_stop.won", "request_stop.lost", "cb.ran_in_constructor", "cb.destroy_self", "cb.dtor_waited_for_running_callback", "src.move_assign_same_state", "src.self_move_assign"],
+                "callback), racing request_stop over two stop states; one sub-workload uses plain OS threads only."
+                " One run in three is an orphan run: main keeps only tokens, every source is party-local, a state can lose its last source while tokens and callbacks live on.",
+        "required_probes": ["request_stop.won", "request_stop.lost", "cb.ran_in_constructor", "cb.destroy_self", "cb.dtor_waited_for_running_callback", "src.move_assign_same_state", "src.self_move_assign", "orphan_run", "src.last_source_of_state_destroyed", "cb.registered_after_stop_and_last_source", "token.checked_after_last_source"],
     },
     "C03": {
         "quick_runs": 60000, "thorough_runs": 1500000, "seed": 3000001, "chunk": 4096,
@@ -140,8 +148,9 @@ PROPS = {
                 "continuations release their wrapper at once and wait (blocking, inside the continuation) for the next access when it depends on nothing else; "
                 "read wrappers are copied 0-2 times; every copy is released by a drawn thread after a drawn delay; the program is cut "
                 "into 1-4 waves: a wave's senders are requested only after all accesses of the earlier waves were released; the mutex "
-                "object is destroyed first (after the last request) in half of the runs.",
-        "required_probes": ["dropped_unstarted", "sender_copied", "mutex_destroyed_first", "void_mutex", "value_mutex", "waves", "released_inside_continuation", "waited_inside_continuation_for_next_access"],
+                "object is destroyed first (after the last request) in half of the runs."
+                " The mutex object itself is move-constructed or move-assigned (onto a fresh mutex / one with a read / a read-write history) between requests.",
+        "required_probes": ["dropped_unstarted", "sender_copied", "mutex_destroyed_first", "void_mutex", "value_mutex", "waves", "released_inside_continuation", "waited_inside_continuation_for_next_access", "mutex_move_constructed", "mutex_move_assigned"],
         "stubbed": ["no pika runtime is started for this property: the header-only mutex is driven by simulated plain threads"],
     },
     "C05": {
@@ -172,15 +181,17 @@ PROPS = {
         "quick_runs": 24000, "thorough_runs": 400000, "seed": 9000001,
         "rule": "C09 programs: latch (count 0-8, count_down(n)/arrive_and_wait/wait/try_wait, late waiters), barrier (1-9 "
                 "participants incl. more than workers, 1-5 phases - one run in six: 2-3 participants reusing one barrier for 130-300 phases -, arrive+wait(token)/arrive_and_wait/arrive_and_drop, counting "
-                "completion functor), event (set/wait), call_once (2-6 callers, first k attempts throw); tasks and OS threads.",
-        "required_probes": ["latch.wait", "latch.arrive_and_wait", "barrier.drop", "barrier.arrive_then_wait", "event.wait", "once.throw", "once.thrower_gave_up", "barrier.more_than_128_phases"],
+                "completion functor), event (set/wait), call_once (2-6 callers, first k attempts throw); tasks and OS threads."
+                " Barrier waits with busy-wait timeouts shorter and longer than the other arrivals; delegated arrivals (arrive(update) with update 2).",
+        "required_probes": ["latch.wait", "latch.arrive_and_wait", "barrier.drop", "barrier.arrive_then_wait", "event.wait", "once.throw", "once.thrower_gave_up", "barrier.more_than_128_phases", "barrier.busy_wait_timeout", "barrier.delegated_arrival"],
     },
     "C08": {
         "quick_runs": 24000, "thorough_runs": 400000, "seed": 8000001,
         "kf_subs": {"kf_timed_os": 48},
         "rule": "C08 programs: 2-6 parties (pika tasks / OS threads) x release(n)/acquire/try_acquire/try_acquire_for/until "
                 "on counting_semaphore, hold-sections on binary_semaphore, a sole timed acquirer racing one release, and "
-                "sliding_semaphore wait/try_wait/signal (max_difference 1-4, one run in five: INT64_MAX or INT64_MAX-100 with upper limits beyond it).",
-        "required_probes": ["timed_acquire.true", "release_before_deadline", "sliding.huge_window"],
+                "sliding_semaphore wait/try_wait/signal (max_difference 1-4, one run in five: INT64_MAX or INT64_MAX-100 with upper limits beyond it)."
+                " The sliding window is widened during the run (set_max_difference + signal_all).",
+        "required_probes": ["timed_acquire.true", "release_before_deadline", "sliding.huge_window", "sliding.window_widened"],
     },
 }
